@@ -469,7 +469,12 @@ def check_trial(prog: Program, sc, rec) -> list[dict]:
             bad(f"the first trial (after validate_simulation) of {rec.move_cls}", "first", v)
     # what the NEXT trial will read: after this one completed (accepted, rejected or failed) the slot holds the energy
     # of the configuration the atoms are left in
-    if rec.outcome in ("accepted", "rejected", "failed") and "last_potential_energy" in rec.ctx_after:
+    unrestored = rec.outcome in ("rejected", "failed") and any(simp(rec.after[c]) != simp(rec.before[c]) for c in ("P", "A", "C"))
+    if unrestored:
+        # the configuration itself was not restored: that is C03's violation (recorded there); the reference energy of a
+        # configuration that should not exist would only restate it
+        out.append({"status": "ok", "rule": "E", "construct": f"{scen}:after-{rec.outcome}:skipped-unrestored-configuration(C03)"})
+    elif rec.outcome in ("accepted", "rejected", "failed") and "last_potential_energy" in rec.ctx_after:
         va = rec.ctx_after["last_potential_energy"]
         a = (simp(rec.after["P"]), simp(rec.after["C"]), simp(rec.after["A"]))
         if isinstance(va, V) and va.term and va.term[0] == "E" and va.term[1] == a:
